@@ -30,7 +30,8 @@ struct RecState {
   /// C04: JSON of range constraint i (quad?) of the converter, installed by CreateRecModelMgr
   std::function<std::string(bool, int)> rangecon;
   bool graph_dumped = false;
-  int throw_in_solve = 0;   // 1: std::runtime_error, 2: mp::Error with code, 3: UnsupportedError
+  int throw_in_solve = 0;   // 1: std::runtime_error, 2: mp::Error with code (via Backend::Abort), 3: UnsupportedError
+  int n_altsol = 0;         // C09: script line `altsol N`: report N intermediate solutions during Solve() (needs sol:stub / sol:count)
   RecState();
   ~RecState() { if (log) std::fclose(log); }
   void Log(const std::string &line) { if (log) { std::fputs(line.c_str(), log); std::fputc('\n', log); std::fflush(log); } }
